@@ -748,8 +748,13 @@ def feature_probes():
         lambda r, a: lacks(['provider_summaries', U1], 'root_provider_uuid')(r, a)
         and lacks(['provider_summaries', U1], 'parent_provider_uuid')(r, a), route=ca)
     add('nested_candidates', 'request spanning a tree', 'GET', '/allocation_candidates?resources=VCPU:1,SRIOV_NET_VF:1',
-        lambda r, a: r.status == 200 and [sorted(x['allocations']) for x in r.json['allocation_requests']] == [[U1, U2]],
-        lambda r, a: r.status == 200 and r.json['allocation_requests'] == [], route=ca)
+        lambda r, a: r.status == 200 and [sorted(x['allocations']) for x in r.json['allocation_requests']] == [[U1, U2]]
+        and sorted(r.json['provider_summaries']) == [U1, U2],
+        # below 1.29 the providers of a dropped request do not appear anywhere in the response
+        lambda r, a: r.status == 200 and r.json['allocation_requests'] == [] and r.json['provider_summaries'] == {}, route=ca)
+    add('nested_candidates', 'summaries name only providers of kept requests', 'GET', '/allocation_candidates?resources=VCPU:1',
+        lambda r, a: r.status == 200 and sorted(r.json['provider_summaries']) == [U1, U2, U3],
+        lambda r, a: r.status == 200 and sorted(r.json['provider_summaries']) == [U1, U3], route=ca)
     # ---- 1.30
     add('reshaper_route', 'POST /reshaper', 'POST', '/reshaper', st(204), st(404),
         body=lambda v, g: reshaper_body(v, g))
